@@ -96,7 +96,7 @@ def run_custom_replay(prop, scratch, test_names):
             elif re.search(r"test result: FAILED", o):
                 m = re.search(r"panicked at[^\n]*\n([^\n]*)", o)
                 out.append(dict(test=t, reproduced=True, failing_input=(m.group(1) if m else ""), output=o[-2500:], cmd=" ".join(cmd)))
-            elif re.search(r"test result: ok\. 1 passed", o):
+            elif re.search(r"test result: ok\. [1-9]\d* passed; 0 failed", o):
                 out.append(dict(test=t, reproduced=False, output=o[-600:], cmd=" ".join(cmd)))
             else:
                 out.append(dict(test=t, reproduced=None, output=o[-2500:], cmd=" ".join(cmd)))
@@ -148,6 +148,15 @@ def make_violation(prop, scratch, v, n, harness_reports):
     # failure is most likely a proof that no longer goes through (a construct without a library specification, a reshaped
     # loop) rather than a violation: reported as undecided, not as an alarm.
     have = {r["test"] for r in res if r["reproduced"] is not None}
+    # (b) the unit's paired Kani harnesses are COMPLETE proofs (kind full / contract / unwind) of the same functions on the
+    #     real code and all of them passed in this run: the Verus failure is a proof-engineering failure, not a violation
+    twins = [hr for hr in harness_reports if hr["harness"] in vu.paired_kani]
+    if (vu.twins_equivalent and not reproduced and twins and len(twins) == len(vu.paired_kani)
+            and all(t["status"] == "success" and t["kind"] in ("full", "contract", "unwind") for t in twins)):
+        rec["downgraded"] = "the complete Kani twins %s of the failed functions passed on the real code: undecided, not a violation" % [t["harness"] for t in twins]
+        write_json(path, rec)
+        return "UNDECIDED-NOT-A-VIOLATION property=%s unit=%s failed functions %s: their complete Kani twins pass on the real code (replay=%s)" % (
+            prop.id, vu.name, [f["function"].rsplit("::", 1)[-1] for f in v["failed"]], path)
     if not reproduced and not paired and tests and all(t in have for t in tests):
         rec["downgraded"] = "all replay tests of the failed functions pass on the real code and no Kani harness failed: undecided, not a violation"
         write_json(path, rec)
